@@ -3,7 +3,7 @@ from __future__ import annotations
 
 import ast
 
-from ..core import (AnalysisError, FuncInfo, Project, attr_chain, const_str, enclosing, expand, guards_of, local_defs,
+from ..core import (AnalysisError, FuncInfo, Project, attr_chain, const_str, effective_callers, enclosing, expand, guards_of, local_defs,
                     term, try_handlers_covering, handler_names, unparse)
 from ..walkers import analysing_calls, check_hidden, classify_guard, find_walkers
 
@@ -102,6 +102,103 @@ def rule_R2(ctx, prj, w):
 
 
 def rule_R3(ctx, prj):
+    if rule_R3_evaluated(ctx, prj):
+        return
+    rule_R3_structural(ctx, prj)
+
+
+def rule_R3_evaluated(ctx, prj) -> bool:
+    """generate_exclude_spec and Configuration.load evaluated: which pattern lines reach PathSpec.from_lines"""
+    from ..absint import BoundFunc, MiniInterp, PyRaise, Sym, T, Unknown
+    from ..fsmodel import VFS, PathV, fs_hook
+    ctx.rule("R3", "generate_exclude_spec evaluated: PathSpec.from_lines receives the style 'gitignore' and, in this order, the "
+                   "built-in exclusions, the configured ones (Configuration.exclude) and the lines of <root>/.gitignore (none when "
+                   "the file is absent); a second call receives the same lines (nothing is accumulated in the constants); "
+                   "Configuration.load appends the 'exclude' list of .codelimit.yml to what the command line already put there", floor=4)
+    fi = prj.func(f"{SC}:generate_exclude_spec")
+    conf = prj.cls("codelimit.common.Configuration:Configuration")
+    load = conf.find_method("load")
+    tree = {"/r": ([], [".gitignore", ".codelimit.yml"]), "/n": ([], [])}
+    try:
+        defaults = MiniInterp(prj).ev(fi.module.assigns["DEFAULT_EXCLUDES"], {}, fi) if "DEFAULT_EXCLUDES" in fi.module.assigns else None
+        if not isinstance(defaults, list) or not defaults:
+            raise Unknown("DEFAULT_EXCLUDES is not a module-level list")
+
+        def run(root, times=1):
+            vfs = VFS(tree, "/r")
+            vfs.texts["/r/.gitignore"] = "gi-one\n!gi-two\n"
+            fs = fs_hook(vfs)
+            captured = []
+
+            def hook(it, kind, f, args, kwargs, node, cur):
+                r = fs(it, kind, f, args, kwargs, node, cur)
+                if r is not NotImplemented:
+                    return r
+                if kind == "call" and isinstance(f, tuple) and f and f[0] == "external" and f[1].replace(":", ".").endswith("from_lines"):
+                    lines = args[1] if len(args) > 1 else kwargs.get("lines")
+                    lines = lines.rest() if hasattr(lines, "rest") else list(lines)
+                    captured.append((args[0] if args else kwargs.get("pattern_factory"), list(lines)))
+                    return Sym("spec")
+                if kind == "call" and isinstance(f, tuple) and f and f[0] == "external" and f[1].replace(":", ".").split(".")[-1] == "load" and "yaml" in f[1]:
+                    return {"exclude": ["yml-one", "yml-two"]}
+                return NotImplemented
+            it = MiniInterp(prj, hook)
+            it.class_state[(conf.qual, "exclude")] = ["cli-one"]
+            for _ in range(times):
+                it.call(fi, [PathV(root)], {})
+            return captured, it
+        cap, it = run("/r", times=2)
+        want = list(defaults) + ["cli-one", "gi-one", "!gi-two"]
+        for i, (style, lines) in enumerate(cap):
+            if style != "gitignore":
+                ctx.viol("R3", "generate_exclude_spec/style", fi.site(), f"pattern style is {style!r}; required 'gitignore'")
+            elif lines != want:
+                missing = [x for x in want if x not in lines]
+                extra = [x for x in lines if x not in want or lines.count(x) > want.count(x)]
+                what = "the second call receives other lines than the first: the pattern constants are modified in place" if i == 1 and cap[0][1] == want else \
+                    f"missing {missing[:4]}" if missing else f"unexpected or repeated {extra[:4]}" if extra else "same lines in another order (the last matching pattern wins, so the order is part of the meaning)"
+                ctx.viol("R3", "generate_exclude_spec/default-not-copied" if i == 1 and cap[0][1] == want else "generate_exclude_spec/sources", fi.site(),
+                         f"call {i + 1}: PathSpec.from_lines receives {len(lines)} lines; required the {len(defaults)} built-in exclusions, then the configured "
+                         f"one, then the two .gitignore lines: {what}")
+            else:
+                ctx.ok("R3", fi.site(), f"call {i + 1} for a root with .gitignore: {len(defaults)} built-in + configured + .gitignore lines, in this order")
+        cap2, _ = run("/n")
+        if cap2 and cap2[0][1] == list(defaults) + ["cli-one"]:
+            ctx.ok("R3", fi.site(), "root without .gitignore: built-in + configured lines")
+        else:
+            ctx.viol("R3", "generate_exclude_spec/no-gitignore", fi.site(), f"for a root without .gitignore the spec receives {cap2[0][1][-3:] if cap2 else 'nothing'}")
+        # Configuration.load
+        if load is not None:
+            vfs = VFS(tree, "/r")
+            vfs.texts["/r/.codelimit.yml"] = "exclude: [yml-one, yml-two]"
+            fs = fs_hook(vfs)
+
+            def hook2(it, kind, f, args, kwargs, node, cur):
+                r = fs(it, kind, f, args, kwargs, node, cur)
+                if r is not NotImplemented:
+                    return r
+                if kind == "call" and isinstance(f, tuple) and f and f[0] == "external" and "yaml" in f[1] and f[1].replace(":", ".").split(".")[-1] in ("load", "safe_load", "full_load"):
+                    return {"exclude": ["yml-one", "yml-two"]}
+                return NotImplemented
+            it2 = MiniInterp(prj, hook2)
+            it2.class_state[(conf.qual, "exclude")] = ["cli-one"]
+            it2.call(prj.func(load.qual), [PathV("/r")], {}, self_obj=T("class", conf))
+            got = it2.class_state.get((conf.qual, "exclude"))
+            lf = prj.func(load.qual)
+            if got == ["cli-one", "yml-one", "yml-two"]:
+                ctx.ok("R3", lf.site(), "Configuration.load: the file's exclusions are appended to those of the command line")
+            else:
+                ctx.viol("R3", "Configuration.load/exclude-rebound", lf.site(), f"after --exclude cli-one and a .codelimit.yml with [yml-one, yml-two] the configured exclusions are {got}; "
+                         f"required ['cli-one', 'yml-one', 'yml-two'] (one source replaces the other)")
+    except (Unknown, PyRaise) as e:
+        ctx.info(f"exclusion spec not evaluable ({type(e).__name__}: {e}); structural rule decides")
+        ctx.violations[:] = [v for v in ctx.violations if v.rule != "R3"]
+        ctx.instances["R3"] = []
+        return False
+    return True
+
+
+def rule_R3_structural(ctx, prj):
     ctx.rule("R3", "the exclusion spec is PathSpec.from_lines('gitignore', L) where L receives a COPY of DEFAULT_EXCLUDES, "
                    "Configuration.exclude and the lines of <root>/.gitignore; --exclude options and the 'exclude' key of "
                    ".codelimit.yml are accumulated into Configuration.exclude (never rebound)", floor=6)
@@ -201,6 +298,52 @@ def rule_R3(ctx, prj):
 
 
 def rule_R4(ctx, prj):
+    from ..absint import PyRaise, Unknown
+    from .. import walk_eval as W
+    try:
+        es = W.scanned_entries(prj)
+        ctx.rule("R4", "each analysed file is stored once, under its root-relative path, with the checksum of its bytes (the value of "
+                       "calculate_checksum for that file) and the lexer's language name - read from the codebase returned by the "
+                       "interpreted scan_path on the virtual tree", floor=3)
+        sp = prj.func(f"{SC}:scan_path")
+        want = {f[len(W.ROOT) + 1:]: f for f in W.expected()}
+        keys = [e[0] for e in es]
+        bad = None
+        if sorted(keys) != sorted(want):
+            bad = ("key", f"the codebase holds the keys {sorted(keys)[:6]}...; required the root-relative paths {sorted(want)[:6]}...")
+        for k, path, lang, loc, vals, cs in es:
+            if bad:
+                break
+            if path != k:
+                bad = ("path", f"the entry stored under {k!r} carries the path {path!r}")
+            elif lang != W.lexer_of(k):
+                bad = ("language", f"the entry of {k} carries the language {lang!r}; required {W.lexer_of(k)!r}")
+            elif cs != "sum:" + want[k]:
+                bad = ("checksum", f"the entry of {k} carries the checksum {cs!r}; required calculate_checksum of {want[k]}")
+        if bad:
+            ctx.viol("R4", f"_scan_file/{bad[0]}", sp.site(), bad[1])
+        else:
+            ctx.ok("R4", sp.site(), f"{len(es)} entries keyed by root-relative path")
+            ctx.ok("R4", sp.site(), "entries carry the lexer's language")
+            ctx.ok("R4", sp.site(), "entries carry calculate_checksum(file)")
+        cs = prj.func("codelimit.common.utils:calculate_checksum")
+        d1, w1, d2, w2 = W.checksum_eval(prj)
+        if (d1, d2) == (w1, w2):
+            ctx.ok("R4", cs.site(), "calculate_checksum: the md5 of ALL bytes of the file (70000 bytes, > one 64 KiB block), recomputed when the bytes change")
+        elif d1 != w1:
+            ctx.viol("R4", "calculate_checksum/not-all-bytes", cs.site(), f"for a file of 70000 bytes calculate_checksum gives {d1}; the md5 of its bytes is {w1}: not the checksum of all its bytes")
+        else:
+            ctx.viol("R4", "calculate_checksum/stale", cs.site(), f"after the file's bytes changed beyond the first 64 KiB calculate_checksum still gives {d2}; the md5 of the new bytes is {w2} "
+                     f"({'the same value as before: the result is cached by path, or only the first block is hashed' if d2 == d1 else 'another value'}): an edited file keeps its checksum and is taken from the cache")
+        return
+    except (Unknown, PyRaise) as e:
+        ctx.info(f"entries not evaluable ({type(e).__name__}: {e}); structural rule decides")
+        ctx.violations[:] = [v for v in ctx.violations if v.rule != "R4"]
+        ctx.instances["R4"] = []
+    rule_R4_structural(ctx, prj)
+
+
+def rule_R4_structural(ctx, prj):
     ctx.rule("R4", "each analysed file is stored once, under relpath(file, root), with calculate_checksum(file) of its bytes "
                    "and the lexer's language name", floor=4)
     sf = prj.func(f"{SC}:_scan_file")
@@ -288,7 +431,7 @@ def rule_R5(ctx, prj):
     cg = prj.callgraph
     for q, allowed in WHO.items():
         fi = prj.func(q)
-        callers = cg.callers_of(q)
+        callers = effective_callers(prj, q)
         extra = callers - allowed - {fi.qual}
         if extra:
             for e in sorted(extra):
